@@ -136,6 +136,7 @@ type vfIdPCfg struct {
 	ExtraJWKS           []jose.JSONWebKey
 	NoRefreshRotation   bool
 	RefreshFails        bool // refresh grant answers 400 invalid_grant
+	RefreshOmitsNonce   bool // ID tokens from refresh grants carry no nonce (default: the original nonce is echoed, as OIDC Core 12.2 permits)
 	ClientID            string
 	Audience            interface{} // default: ClientID
 }
@@ -471,8 +472,10 @@ func (i *vfIdP) tokenRefresh(w http.ResponseWriter, r *http.Request, ev *vfIdPEv
 	tok.Used = true
 	id, fam, nonce := tok.Ident, tok.Family, tok.Nonce
 	i.mu.Unlock()
-	_ = nonce
-	i.issue(w, ev, "refresh", nil, id, "", fam)
+	if cf.RefreshOmitsNonce {
+		nonce = ""
+	}
+	i.issue(w, ev, "refresh", nil, id, nonce, fam)
 }
 
 func (i *vfIdP) userinfo(w http.ResponseWriter, r *http.Request, ev *vfIdPEvent) {
